@@ -842,6 +842,7 @@ pub fn run_wire(plan: &WirePlan, replay: Option<Vec<u32>>, tracing: bool) -> Run
         None => match plan.sched {
             SchedKind::Random => Chooser::random(sched_rng),
             SchedKind::Pct => Chooser::pct(sched_rng, plan.pct_depth, est_len),
+            SchedKind::Sticky => Chooser::sticky(sched_rng),
         },
     };
 
